@@ -234,7 +234,7 @@ func c04NewEnv(t *testing.T, tr *Trace, rng *Rng, prop string, variant int) *c04
 			t.Fatal("creation fee denoms")
 		}
 	}
-	tr.Line("liq.begin", prop, strconv.FormatInt(int64(liqtypes.DefaultFarmingQueueDuration/time.Second), 10),
+	tr.Line("lq.begin", prop, strconv.FormatInt(int64(liqtypes.DefaultFarmingQueueDuration/time.Second), 10),
 		strings.Join(acfg, ";"), strings.Join(funds, ";"))
 	e.block(e.height, e.now)
 	e.prev = e.project()
@@ -409,16 +409,16 @@ func (e *c04Env) state() {
 	for _, x := range p.farmers {
 		farm = append(farm, fmt.Sprintf("%d:%d:%d:%s:%s", x.app, x.pool, x.owner, x.active, strings.Join(x.queued, ";")))
 	}
-	e.tr.Line("liq.state", "bal="+strings.Join(bal, ","), "pairs="+strings.Join(pairs, ","), "pools="+strings.Join(pools, ","),
+	e.tr.Line("lq.state", "bal="+strings.Join(bal, ","), "pairs="+strings.Join(pairs, ","), "pools="+strings.Join(pools, ","),
 		"deps="+strings.Join(deps, ","), "wdrs="+strings.Join(wdrs, ","), "orders="+strings.Join(orders, ","),
 		"mm="+strings.Join(mms, ","), "farm="+strings.Join(farm, ","))
 	// the repository's own invariants as a cross-check of the monitors
 	msg, broken := liqkeeper.AllInvariants(e.k)(e.ctx)
 	if broken {
 		e.tr.Count("repo_invariant:broken")
-		e.tr.Line("liq.inv", "broken", strings.ReplaceAll(strings.ReplaceAll(msg, "\n", " "), "\t", " "))
+		e.tr.Line("lq.inv", "broken", strings.ReplaceAll(strings.ReplaceAll(msg, "\n", " "), "\t", " "))
 	} else {
-		e.tr.Line("liq.inv", "ok", "")
+		e.tr.Line("lq.inv", "ok", "")
 	}
 	e.prev = p
 }
@@ -461,13 +461,13 @@ func (e *c04Env) emit(kind string, outcome string, fields ...string) {
 func (e *c04Env) block(h, now int64) {
 	e.height, e.now = h, now
 	e.ctx = e.ctx.WithBlockHeight(h).WithBlockTime(time.Unix(now, 0).UTC())
-	e.tr.Line("liq.block", i64(h), i64(now))
+	e.tr.Line("lq.block", i64(h), i64(now))
 }
 
 func (e *c04Env) beginBlocker() {
 	liquidity.BeginBlocker(e.ctx, e.k, e.app.AssetKeeper)
 	for _, a := range e.apps {
-		e.tr.Line("liq.bb", u(a))
+		e.tr.Line("lq.bb", u(a))
 	}
 	e.state()
 }
@@ -609,8 +609,8 @@ func (e *c04Env) endBlocker() {
 				}
 			}
 		}
-		e.tr.Count("liq.eb:" + outcome)
-		e.tr.Line("liq.eb", u(a), strings.Join(ms, "|"), strings.Join(dins, ","), strings.Join(wins, ","), outcome)
+		e.tr.Count("lq.eb:" + outcome)
+		e.tr.Line("lq.eb", u(a), strings.Join(ms, "|"), strings.Join(dins, ","), strings.Join(wins, ","), outcome)
 	}
 	e.state()
 }
@@ -656,7 +656,7 @@ func (e *c04Env) createPair(app uint64, ui int, base, quote string) {
 		qc = bc
 	}
 	out := e.deliver(msg)
-	e.emit("liq.createPair", out, u(app), strconv.Itoa(ui), bc, qc, c04b(ext))
+	e.emit("lq.createPair", out, u(app), strconv.Itoa(ui), bc, qc, c04b(ext))
 }
 
 func (e *c04Env) createPool(app uint64, ui int, pairID uint64, x, y sdkmath.Int, ranged bool, minP, maxP, initP sdkmath.LegacyDec) {
@@ -701,7 +701,7 @@ func (e *c04Env) createPool(app uint64, ui int, pairID uint64, x, y sdkmath.Int,
 		}
 	}
 	out := e.deliver(msg)
-	e.emit("liq.createPool", out, u(app), strconv.Itoa(ui), u(pairID), c04b(ranged), dx.String(), dy.String(), ps.String(), c04b(ext))
+	e.emit("lq.createPool", out, u(app), strconv.Itoa(ui), u(pairID), c04b(ranged), dx.String(), dy.String(), ps.String(), c04b(ext))
 }
 
 func (e *c04Env) poolDenoms(app, poolID uint64) (quote, base string, ok bool) {
@@ -728,7 +728,7 @@ func (e *c04Env) depositCoins(app, poolID uint64, x, y sdkmath.Int) sdk.Coins {
 func (e *c04Env) deposit(app uint64, ui int, poolID uint64, x, y sdkmath.Int) {
 	msg := liqtypes.NewMsgDeposit(app, e.users[ui], poolID, e.depositCoins(app, poolID, x, y))
 	out := e.deliver(msg)
-	e.emit("liq.deposit", out, u(app), strconv.Itoa(ui), u(poolID), x.String(), y.String(), "1")
+	e.emit("lq.deposit", out, u(app), strconv.Itoa(ui), u(poolID), x.String(), y.String(), "1")
 }
 
 func (e *c04Env) withdraw(app uint64, ui int, poolID uint64, pc sdkmath.Int, wrongDenom bool) {
@@ -738,7 +738,7 @@ func (e *c04Env) withdraw(app uint64, ui int, poolID uint64, pc sdkmath.Int, wro
 	}
 	msg := liqtypes.NewMsgWithdraw(app, e.users[ui], poolID, sdk.NewCoin(denom, pc))
 	out := e.deliver(msg)
-	e.emit("liq.withdraw", out, u(app), strconv.Itoa(ui), u(poolID), pc.String(), c04b(!wrongDenom))
+	e.emit("lq.withdraw", out, u(app), strconv.Itoa(ui), u(poolID), pc.String(), c04b(!wrongDenom))
 }
 
 // order places a limit (typ 1) or market (typ 2) order.
@@ -793,7 +793,7 @@ func (e *c04Env) order(app uint64, ui int, pairID uint64, typ int, buy bool, msg
 		}
 	}
 	out := e.deliver(msg)
-	e.emit("liq.order", out, u(app), strconv.Itoa(ui), u(pairID), strconv.Itoa(typ), c04b(buy), msgOffer.String(),
+	e.emit("lq.order", out, u(app), strconv.Itoa(ui), u(pairID), strconv.Itoa(typ), c04b(buy), msgOffer.String(),
 		msgPrice.BigInt().String(), price.BigInt().String(), amt.String(), i64(lifespan), c04b(ext))
 }
 
@@ -835,22 +835,22 @@ func (e *c04Env) mmOrder(app uint64, ui int, pairID uint64, maxSell, minSell sdk
 	if !ext {
 		buys, sells = []liqtypes.MMOrderTick{{OfferCoinAmount: sdkmath.OneInt(), Price: sdkmath.LegacyOneDec(), Amount: sdkmath.OneInt()}}, nil
 	}
-	e.emit("liq.mmOrder", out, u(app), strconv.Itoa(ui), u(pairID), e.ticks(buys), e.ticks(sells), i64(lifespan), c04b(ext))
+	e.emit("lq.mmOrder", out, u(app), strconv.Itoa(ui), u(pairID), e.ticks(buys), e.ticks(sells), i64(lifespan), c04b(ext))
 }
 
 func (e *c04Env) cancel(app uint64, ui int, pairID, id uint64) {
 	out := e.deliver(liqtypes.NewMsgCancelOrder(app, e.users[ui], pairID, id))
-	e.emit("liq.cancel", out, u(app), strconv.Itoa(ui), u(pairID), u(id))
+	e.emit("lq.cancel", out, u(app), strconv.Itoa(ui), u(pairID), u(id))
 }
 
 func (e *c04Env) cancelAll(app uint64, ui int, pairs []uint64) {
 	out := e.deliver(liqtypes.NewMsgCancelAllOrders(app, e.users[ui], pairs))
-	e.emit("liq.cancelAll", out, u(app), strconv.Itoa(ui), joinU(pairs))
+	e.emit("lq.cancelAll", out, u(app), strconv.Itoa(ui), joinU(pairs))
 }
 
 func (e *c04Env) cancelMM(app uint64, ui int, pairID uint64) {
 	out := e.deliver(liqtypes.NewMsgCancelMMOrder(app, e.users[ui], pairID))
-	e.emit("liq.cancelMM", out, u(app), strconv.Itoa(ui), u(pairID))
+	e.emit("lq.cancelMM", out, u(app), strconv.Itoa(ui), u(pairID))
 }
 
 func (e *c04Env) farm(app uint64, ui int, poolID uint64, amt sdkmath.Int, wrongDenom bool) {
@@ -859,7 +859,7 @@ func (e *c04Env) farm(app uint64, ui int, poolID uint64, amt sdkmath.Int, wrongD
 		denom = "ucoinb"
 	}
 	out := e.deliver(liqtypes.NewMsgFarm(app, poolID, e.users[ui], sdk.NewCoin(denom, amt)))
-	e.emit("liq.farm", out, u(app), strconv.Itoa(ui), u(poolID), amt.String(), c04b(!wrongDenom))
+	e.emit("lq.farm", out, u(app), strconv.Itoa(ui), u(poolID), amt.String(), c04b(!wrongDenom))
 }
 
 func (e *c04Env) unfarm(app uint64, ui int, poolID uint64, amt sdkmath.Int, wrongDenom bool) {
@@ -868,7 +868,7 @@ func (e *c04Env) unfarm(app uint64, ui int, poolID uint64, amt sdkmath.Int, wron
 		denom = "ucoinb"
 	}
 	out := e.deliver(liqtypes.NewMsgUnfarm(app, poolID, e.users[ui], sdk.NewCoin(denom, amt)))
-	e.emit("liq.unfarm", out, u(app), strconv.Itoa(ui), u(poolID), amt.String(), c04b(!wrongDenom))
+	e.emit("lq.unfarm", out, u(app), strconv.Itoa(ui), u(poolID), amt.String(), c04b(!wrongDenom))
 }
 
 func (e *c04Env) depositAndFarm(app uint64, ui int, poolID uint64, x, y sdkmath.Int) {
@@ -881,7 +881,7 @@ func (e *c04Env) depositAndFarm(app uint64, ui int, poolID uint64, x, y sdkmath.
 		}
 	}
 	out := e.deliver(liqtypes.NewMsgDepositAndFarm(app, e.users[ui], poolID, e.depositCoins(app, poolID, x, y)))
-	e.emit("liq.depositAndFarm", out, u(app), strconv.Itoa(ui), u(poolID), x.String(), y.String(), ax.String(), ay.String(), pc.String(), "1")
+	e.emit("lq.depositAndFarm", out, u(app), strconv.Itoa(ui), u(poolID), x.String(), y.String(), ax.String(), ay.String(), pc.String(), "1")
 }
 
 func (e *c04Env) unfarmAndWithdraw(app uint64, ui int, poolID uint64, amt sdkmath.Int) {
@@ -895,7 +895,7 @@ func (e *c04Env) unfarmAndWithdraw(app uint64, ui int, poolID uint64, amt sdkmat
 		}
 	}
 	out := e.deliver(liqtypes.NewMsgUnfarmAndWithdraw(app, poolID, e.users[ui], sdk.NewCoin(liqtypes.PoolCoinDenom(app, poolID), amt)))
-	e.emit("liq.unfarmAndWithdraw", out, u(app), strconv.Itoa(ui), u(poolID), amt.String(), x.String(), y.String(), "1")
+	e.emit("lq.unfarmAndWithdraw", out, u(app), strconv.Itoa(ui), u(poolID), amt.String(), x.String(), y.String(), "1")
 }
 
 // ---------------------------------------------------------------------------------------------------------
